@@ -116,17 +116,19 @@ impl World {
                 let to_ms = cmd.get("to").and_then(|v| v.as_i64()).unwrap_or(0);
                 let to = cmd.get("toh").and_then(|v| v.as_i64()).unwrap_or(if to_ms < 0 { to_ms } else { to_ms * 2 });
                 let via_default = gets(cmd, "via", "new") == "default";
+                // the instance's clock is set BEFORE the scanner is constructed (a constructor may read it):
+                // "now" = start as the specification sees it, "nowx" = the real reading (decimal string)
+                let snow0 = cmd.get("now").and_then(|v| v.as_u64()).unwrap_or(0);
+                let now0 = match cmd.get("nowx").and_then(|v| v.as_str()) {
+                    Some(x) => x.parse().expect("nowx"),
+                    None => snow0,
+                };
+                set_clock(now0);
                 let (r, al) = guarded(|| Inst::new(kind, to, via_default));
                 match r {
                     Some(mut inst) => {
-                        if let Some(n) = cmd.get("now").and_then(|v| v.as_u64()) {
-                            inst.now = n;
-                            inst.snow = n;
-                        }
-                        // "nowx": the real clock reading as a decimal string (beyond what TLC can read)
-                        if let Some(n) = cmd.get("nowx").and_then(|v| v.as_str()) {
-                            inst.now = n.parse().expect("nowx");
-                        }
+                        inst.now = now0;
+                        inst.snow = snow0;
                         // observable: new() == default()  (for the polling scanner default() == new(0))
                         let other = Inst::new(kind, if via_default { to } else { 0 }, !via_default);
                         put(&mut ev, "eqd", json!(inst.sc == other.sc));
@@ -221,6 +223,7 @@ impl World {
             "eq" => {
                 let a = geti(cmd, "id");
                 let b = geti(cmd, "b");
+                set_clock(self.insts[&a].now);
                 let r = self.insts[&a].sc == self.insts[&b].sc;
                 put(&mut ev, "r", json!(r));
                 sink(ev);
